@@ -2166,7 +2166,11 @@ impl<T: Storage> Raft<T> {
                     return Ok(());
                 }
 
-                if self.prs().is_singleton() {
+                // The shortcut is only sound when the single voter is this node. A leader that
+                // has been removed from the configuration keeps leading until it steps down;
+                // the remaining voter may have elected itself and committed on its own, so
+                // such a leader has to confirm its leadership with the quorum like any other.
+                if self.prs().is_singleton() && self.prs().conf().voters().contains(self.id) {
                     let read_index = self.raft_log.committed;
                     if let Some(m) = self.handle_ready_read_index(m, read_index) {
                         self.r.send(m, &mut self.msgs);
